@@ -739,6 +739,10 @@ singleton	:  singleton '*'
 
 			++rulelen;
 
+			/* (?s:.) matches newline too. */
+			if (sf_dot_all())
+				rule_has_nl[num_rules] = true;
+
             if (sf_dot_all())
                 $$ = mkstate( -cclany );
             else
